@@ -111,3 +111,19 @@ CHECKS["C12"] = {
     "outside": ["caret slope rise/run (Atan2/Sin/Cos are outside the solver fragment): vertical caret only", "glyph counts above 6", "font-level derived fields (FontBBox, xAvgCharWidth, first/last char) and PDF-unit queries: see C01/C15 harnesses where present", "post glyph names (C14)"],
     "assumptions": ["OS/2 normal form: IsRegular clears IsBold/IsItalic, non-positive XHeight/CapHeight are stored as 0, Unicode range bit 57 follows LastCharIndex==0xFFFF", "a timestamp encoding to 0 (1904-01-01 00:00:00) is read as 'unset'", "xMaxExtent/minRSB definitions checked with lsb = xMin (LSB derived from the extents)"],
 }
+
+CHECKS["C14"] = {
+    "harnesses": [
+        H("mac", "c14.go", "VerifH_C14_mac", ["bytes"], quick={"params": {"maxlen": 1}, "timeout": 280}, thorough={"params": {"maxlen": 2}, "timeout": 2400}),
+        H("mac", "c14.go", "VerifH_C14_mac_runes", ["representable"], quick={"timeout": 280}),
+        H("name", "c14.go", "VerifH_C14_utf16", ["done"], quick={"timeout": 280}),
+        H("name", "c14.go", "VerifH_C14_utf16_units", ["done"], quick={"timeout": 280}),
+        H("name", "c14.go", "VerifH_C14_name", ["decoded"], quick={"params": {"maxids": 1, "langs": 1, "maxchars": 2}, "timeout": 280}, thorough={"params": {"maxids": 2, "langs": 3, "maxchars": 2}, "timeout": 2400}),
+        H("name", "c14.go", "VerifH_C14_name_bytes", ["accepted"], quick={"params": {"maxextra": 2, "maxrec": 1}, "timeout": 280}, thorough={"params": {"maxextra": 8, "maxrec": 2}, "timeout": 2400}),
+        H("post", "c14.go", "VerifH_C14_postnames", ["format1", "format2"], quick={"params": {"maxnames": 1}, "timeout": 280}, thorough={"params": {"maxnames": 2}, "timeout": 2400}),
+    ],
+    "bounds": {"quick": "Mac Roman: every byte string of length 1 [2 thorough] and every Unicode scalar value; UTF-16: every valid string of <=2 scalar values, every sequence of <=2 code units (plus a dangling byte); name table: Macintosh 'en' and Windows 'en-US' [3 languages each in thorough], 1 name id symbolic over 0..65535, strings of 1..2 characters (Mac: printable ASCII; Windows: any scalar values); arbitrary name-table bytes with <=1 record [2]; post: names nil / the 258 standard names (optionally one replaced) / lists of 1 [2] names (standard by symbolic index or symbolic custom strings of 0..2 bytes)",
+               "thorough": "2 name ids, 12 extra bytes, 3 post names"},
+    "outside": ["BCP 47 <-> platform language id / OpenType script-language tag mapping (x/text tables: only concrete enumeration possible)", "strings longer than 2 characters (up to 32767 units)", "more than 2 languages per platform", "Mac strings with non-ASCII repertoire members inside the name table (covered by the codec harnesses)", "x/image comparison"],
+    "assumptions": ["strings are valid UTF-8 without NUL", "Macintosh strings are representable in Mac Roman"],
+}
